@@ -480,12 +480,169 @@ def pipe1(ctx, lib):
                           "so the pattern body differs from the anchored build for inputs that reach it" % (cb.path, s_[0], s_[1], ref[0] if ref else "?"), b.loc(t.get("line")))
 
 
+
+# ----------------------------------------------------------------------------- ZIP-1: positional pairing of test cases and clusters
+
+_ELEMENTWISE_ADAPTORS = ("::iter", "::into_iter", "::iter_mut", "Iterator::map", "Iterator::cloned", "Iterator::copied", "Iterator::inspect", "Iterator::by_ref",
+                         "Iterator::peekable", "Iterator::fuse", "::deref", "::deref_mut", "::as_slice", "::as_mut_slice", "::as_ref", "::borrow", "::clone")
+_RESHAPING_ADAPTORS = ("Iterator::filter", "Iterator::filter_map", "Iterator::flat_map", "Iterator::flatten", "Iterator::skip", "Iterator::take", "Iterator::skip_while",
+                       "Iterator::take_while", "Iterator::step_by", "Iterator::rev", "Iterator::chain", "Iterator::map_while", "Iterator::scan", "Itertools::dedup",
+                       "Itertools::dedup_by", "Itertools::unique", "Itertools::unique_by", "Itertools::sorted", "Itertools::sorted_by", "Itertools::sorted_by_key",
+                       "Itertools::sorted_unstable", "Itertools::coalesce", "Itertools::interleave", "Itertools::merge", "Itertools::rev", "Iterator::cycle",
+                       "Itertools::step", "Itertools::filter_ok", "Itertools::positions", "Itertools::tail", "Itertools::k_smallest")
+_RESHAPING_METHODS = ("dedup", "dedup_by", "dedup_by_key", "retain", "retain_mut", "remove", "swap_remove", "truncate", "push", "insert", "pop", "drain", "sort", "sort_by",
+                      "sort_by_key", "sort_unstable", "sort_unstable_by", "sort_unstable_by_key", "sort_by_cached_key", "reverse", "clear", "extend", "append",
+                      "split_off", "swap", "rotate_left", "rotate_right", "resize", "resize_with", "splice", "extend_from_slice", "select_nth_unstable", "fill_with",
+                      "extract_if", "shrink_to")
+_HARMLESS_METHODS = ("iter", "iter_mut", "deref", "deref_mut", "index", "index_mut", "get", "get_mut", "first", "first_mut", "last", "last_mut", "len", "is_empty",
+                     "as_slice", "as_mut_slice", "clone", "contains", "into_iter", "as_ref", "as_mut", "fmt", "eq", "ne", "capacity", "reserve", "shrink_to_fit", "to_vec",
+                     "iter().cloned", "borrow", "borrow_mut", "to_owned")
+
+
+def _chain_verdict(o, stop=None):
+    """classify the iterator chain of an origin term down to its source: (reshaping adaptor | None, unknown adaptor | None, source term)"""
+    bad = unknown = None
+    cur = local.peel(o)
+    for _ in range(40):
+        if cur[0] != "call":
+            break
+        if stop is not None and stop(cur):
+            break
+        n = cur[1]
+        if n.endswith(("Itertools::collect_vec", "Iterator::collect")):
+            pass
+        elif any(n.endswith(a) for a in _RESHAPING_ADAPTORS):
+            bad = bad or n
+        elif any(n.endswith(a) for a in _ELEMENTWISE_ADAPTORS):
+            pass
+        else:
+            unknown = unknown or n
+        if not cur[2]:
+            break
+        cur = local.peel(cur[2][0])
+    return bad, unknown, cur
+
+
+def zip1(ctx, lib):
+    """ZIP-1: where the entry function pairs test cases with their clusters *by position* (Iterator::zip), the cluster vector corresponds to the test-case
+    vector element by element: its producer builds it by an element-wise chain over the test cases and afterwards changes it only in place (no dedup / retain / sort /
+    push / remove ... on it), and the test-case side of the zip is an element-wise chain over the same test-case parameter."""
+    rid = "ZIP-1"
+    CL = "cluster::GraphemeCluster"
+    entries = [b for b in lib.bodies if b.kind in ("fn", "assoc_fn") and b.sig_output and b.sig_output.startswith("regexp::RegExp")
+               and any("std::vec::Vec<std::string::String>" in t for t in b.sig_inputs)]
+    n = 0
+    for E in entries:
+        for b in [E] + [c for c in lib.bodies if c.kind == "closure" and c.parent == E.path]:
+            d = local.Defs(b)
+            for bi, t in b.calls():
+                if not (callee_name(t) or "").endswith("Iterator::zip") or len(t["args"]) != 2:
+                    continue
+                sides = [d.operand(a) for a in t["args"]]
+                prod = [None, None]
+                for i, o in enumerate(sides):
+                    for x in local.walk(o):
+                        if x[0] == "call" and lib.body(x[1]) is not None and ("Vec<%s" % CL) in (lib.body(x[1]).sig_output or "") and not lib.body(x[1]).derived:
+                            prod[i] = x
+                            break
+                if not any(prod):
+                    continue            # a zip that does not involve the cluster vector
+                n += 1
+                ci = 0 if prod[0] else 1
+                site = "%s:zip@%s" % (b.path, prod[ci][1].split("::")[-1])
+                problems, unknowns = [], []
+                # (1) the other side: element-wise over the test-case parameter
+                bad, unk, src = _chain_verdict(sides[1 - ci])
+                roots = [x for x in local.walk(src) if x[0] == "param"]
+                if bad:
+                    problems.append("the test-case side of the pairing passes through %s" % bad.split("::")[-1])
+                elif unk or not roots:
+                    unknowns.append("test-case side of the pairing: %s" % (unk or local.show(src)[:80]))
+                # (1b) the test-case vector is not reshaped between the production of the clusters and the pairing
+                if roots and b is E and len(prod[ci]) > 3 and prod[ci][3] is not None:
+                    from sa import guards as G
+                    cfg = G.FnInfo.of(b).cfg
+                    after = cfg.reachable_from(prod[ci][3])
+                    tp, tu = [], []
+                    for bj, t2 in b.calls():
+                        if bj in after and bj != prod[ci][3] and bi in cfg.reachable_from(bj):
+                            _vec_uses(lib, b, d, lambda x: x[0] == "param" and x[1] == roots[0][1], tp, tu, "after the clusters were produced", only_block=bj,
+                                      what="test-case vector")
+                    problems += tp
+                    unknowns += tu
+                # (2) the cluster side between producer and zip: element-wise
+                bad, unk, src = _chain_verdict(sides[ci], stop=lambda c: c is prod[ci] or (c[1] == prod[ci][1]))
+                if bad:
+                    problems.append("the cluster side of the pairing passes through %s" % bad.split("::")[-1])
+                elif unk:
+                    unknowns.append("cluster side of the pairing: %s" % unk)
+                # (2b) the cluster vector is not reshaped in the entry function before the zip
+                _vec_uses(lib, b, d, lambda x: x[0] == "call" and x[1] == prod[ci][1] and (len(x) < 4 or len(prod[ci]) < 4 or x[3] == prod[ci][3]), problems, unknowns,
+                          "in " + b.path)
+                # (3) the producer: element-wise construction from its test-case parameter, then in-place changes only
+                P = lib.body(prod[ci][1])
+                pd = local.Defs(P)
+                ret = local.peel(pd.local(0))
+                if ret[0] == "multi":
+                    unknowns.append("the producer %s returns one of several vectors" % P.path)
+                else:
+                    bad, unk, src = _chain_verdict(ret)
+                    if bad:
+                        problems.append("the producer %s builds the cluster vector through %s" % (P.path, bad.split("::")[-1]))
+                    elif unk or not [x for x in local.walk(src) if x[0] == "param"]:
+                        unknowns.append("construction of the cluster vector in %s: %s" % (P.path, unk or local.show(src)[:80]))
+                    if ret[0] == "call":
+                        _vec_uses(lib, P, pd, lambda x: x[0] == "call" and x[1] == ret[1] and (len(x) < 4 or len(ret) < 4 or x[3] == ret[3]), problems, unknowns,
+                                  "in the producer " + P.path)
+                if problems:
+                    ctx.violation(rid, (b.path, "positional pairing"), "test cases and clusters are paired by position, but %s: once an element is dropped, added or moved on one side "
+                                  "only, every later cluster is paired with the wrong test case (e.g. its character count, which orders the last-resort alternation)"
+                                  % "; ".join(problems), b.loc(t.get("line")))
+                elif unknowns:
+                    ctx.undecided(rid, site, "; ".join(unknowns), b.loc(t.get("line")))
+                else:
+                    ctx.ok(rid, site, {"producer": prod[ci][1]}, b.loc(t.get("line")))
+    return n
+
+
+def _vec_uses(lib, body, d, is_vec, problems, unknowns, where, only_block=None, what="cluster vector"):
+    """classify every call of `body` whose receiver is (a borrow of) the vector identified by `is_vec`"""
+    for bj, t2 in body.calls():
+        n2 = callee_name(t2) or ""
+        if not t2["args"] or (only_block is not None and bj != only_block):
+            continue
+        o = d.operand(t2["args"][0])
+        # the receiver chain: references / deref / deref_mut / as_mut_slice only between the call and the vector
+        cur = local.peel(o)
+        hops = 0
+        while cur[0] == "call" and cur[1].endswith(("::deref", "::deref_mut", "::as_mut_slice", "::as_slice", "::borrow_mut", "::as_mut")) and cur[2] and hops < 6:
+            cur = local.peel(cur[2][0])
+            hops += 1
+        if not is_vec(cur):
+            continue
+        m = n2.split("::")[-1]
+        if not (n2.startswith(("std::vec::Vec", "alloc::vec::Vec", "core::slice::<impl [T]>", "std::slice::<impl [T]>", "<std::vec::Vec", "itertools::Itertools"))
+                or "<impl [T]>" in n2):
+            cb = lib.body(n2)
+            if cb is not None and cb.sig_inputs and cb.sig_inputs[0].startswith("&mut"):
+                unknowns.append("%s passes the %s by mutable reference to %s" % (where, what, n2))
+            continue
+        if m in _RESHAPING_METHODS:
+            problems.append("%s the %s is reshaped by %s()" % (where, what, m))
+        elif m in _HARMLESS_METHODS:
+            continue
+        elif hops and any(x[0] == "call" and x[1].endswith("deref_mut") for x in local.walk(o)):
+            unknowns.append("%s the %s is changed by %s(), an operation this rule does not know" % (where, what, m))
+
+
 def run(ctx):
     ctx.rule("ANC-1", "ccp over <RegExp as Display>::fmt (Component rendering inlined): on every abstract path the literal skeleton is "
                       "<flag><^ iff start anchor enabled><group> expr <)><$ iff end anchor enabled>, and no later replace touches skeleton characters")
     ctx.rule("ALT-1", "every construction of Expression::Alternation is dominated by a longest-first sort (Reverse(len) or Reverse(char count)) of the stored vector or of its element-wise pre-image")
     ctx.rule("ALT-2", "an alternation that becomes the result without a later self-check (last resort) is ordered by the chars its alternatives match, not by graphemes")
     ctx.rule("PIPE-1", "all stages of the entry function (minimised automaton, raw-trie automaton, last-resort alternation) consume the same converted cluster vector")
+    ctx.rule("ZIP-1", "where test cases and clusters are paired by position (zip), both sides are element-wise images of the same test-case vector: element-wise "
+                      "iterator chains, and no reshaping (dedup / retain / sort / push / remove ...) of the cluster vector in its producer or before the pairing")
     ctx.rule("SCK-1", "the alternation-order self-check is guarded by the end-anchor setting alone (plus 'pattern compiled'): order is observable whenever '$' is absent")
     ctx.rule("SCK-3", "the self-check's verdict is Iterator::all over the whole list of test cases (no filter/skip/take between the list and the predicate)")
     ctx.rule("SCK-2", "the per-test-case predicate of the self-check inspects the match extent (regex::Match accessor), not just a match count")
@@ -497,4 +654,5 @@ def run(ctx):
     anc1(ctx, lib, roles)
     alt2(ctx, lib, alt1(ctx, lib))
     pipe1(ctx, lib)
+    zip1(ctx, lib)
     self_check(ctx, lib, roles)
